@@ -106,7 +106,8 @@ Fixpoint nlookup {V} (k : nat) (l : list (nat * V)) : option V :=
 Definition mem (k : name) (l : list name) : bool := existsb (name_eqb k) l.
 
 (* a module object: identity, name, and the globals array it adopted (Module.UseGlobals) when its body completed *)
-Inductive value := VInt (z : Z) | VMod (id : nat) (n : name) (arr : nat) | VBool (b : bool) | VNil.
+Inductive value := VInt (z : Z) | VMod (id : nat) (n : name) (arr : nat) | VBool (b : bool) | VNil
+               | VFn.   (* a function defined by the module: func set_x(v) { x = v } *)
 Notation env := (list (name * value)).
 
 Inductive expr := EPath (p : list name) | ESame (p q : list name).
@@ -115,6 +116,7 @@ Inductive action :=
 | AImport (path : name) (alias : option name)
 | AFrom (parents : list name) (imports : list (name * option name))
 | ASet (x : name) (v : Z)                          (* x = v on the executing code's own global *)
+| ADef (x : name)                                  (* func set_x(v) { x = v } *)
 | ACallSet (p : list name) (x : name) (v : Z)      (* p.set_x(v): a function of module p assigns p's global x *)
 | AObs (e : expr)
 | AFail                                            (* error("boom") *)
@@ -151,12 +153,14 @@ Record st := {
   fail_nr : list (name * nat);
   fail_r : list (name * nat);
   results : list (name * nat);          (* every successful importModule(n) = id *)
-  wlog : list (nat * option name)       (* every `x = v` executed: (globals array written, module whose code executed it) *)
+  wlog : list (nat * option name);      (* every `x = v` executed: (globals array written, module whose code executed it) *)
+  fuzzy : bool                          (* a module body failed while a from-import had values pending on the operand stack:
+                                           what resumeFrame leaves there is outside the model *)
 }.
 
 Definition init : st :=
   {| cache := []; compiled := []; loaded := []; arrays := [(0, [])]; next_arr := 1; next_mod := 0;
-     trace := []; starts := []; done_nr := []; done_r := []; fail_nr := []; fail_r := []; results := []; wlog := [] |}.
+     trace := []; starts := []; done_nr := []; done_r := []; fail_nr := []; fail_r := []; results := []; wlog := []; fuzzy := false |}.
 
 Record ctx := {
   c_self : option name;      (* the module whose code is executing; None = main *)
@@ -174,40 +178,45 @@ Definition log (e : event) (s : st) : st :=
   {| cache := cache s; compiled := compiled s; loaded := loaded s; arrays := arrays s;
      next_arr := next_arr s; next_mod := next_mod s; trace := e :: trace s;
      starts := starts s; done_nr := done_nr s; done_r := done_r s; fail_nr := fail_nr s; fail_r := fail_r s;
-     results := results s; wlog := wlog s |}.
+     results := results s; wlog := wlog s; fuzzy := fuzzy s |}.
 Definition set_array (a : nat) (e : env) (s : st) : st :=
   {| cache := cache s; compiled := compiled s; loaded := loaded s; arrays := (a, e) :: arrays s;
      next_arr := next_arr s; next_mod := next_mod s; trace := trace s;
      starts := starts s; done_nr := done_nr s; done_r := done_r s; fail_nr := fail_nr s; fail_r := fail_r s;
-     results := results s; wlog := wlog s |}.
+     results := results s; wlog := wlog s; fuzzy := fuzzy s |}.
 Definition note_write (a : nat) (who : option name) (s : st) : st :=
   {| cache := cache s; compiled := compiled s; loaded := loaded s; arrays := arrays s;
      next_arr := next_arr s; next_mod := next_mod s; trace := trace s;
      starts := starts s; done_nr := done_nr s; done_r := done_r s; fail_nr := fail_nr s; fail_r := fail_r s;
-     results := results s; wlog := (a, who) :: wlog s |}.
+     results := results s; wlog := (a, who) :: wlog s; fuzzy := fuzzy s |}.
+Definition set_fuzzy (s : st) : st :=
+  {| cache := cache s; compiled := compiled s; loaded := loaded s; arrays := arrays s;
+     next_arr := next_arr s; next_mod := next_mod s; trace := trace s;
+     starts := starts s; done_nr := done_nr s; done_r := done_r s; fail_nr := fail_nr s; fail_r := fail_r s;
+     results := results s; wlog := wlog s; fuzzy := true |}.
 Definition add_result (n : name) (id : nat) (s : st) : st :=
   {| cache := cache s; compiled := compiled s; loaded := loaded s; arrays := arrays s;
      next_arr := next_arr s; next_mod := next_mod s; trace := trace s;
      starts := starts s; done_nr := done_nr s; done_r := done_r s; fail_nr := fail_nr s; fail_r := fail_r s;
-     results := (n, id) :: results s; wlog := wlog s |}.
+     results := (n, id) :: results s; wlog := wlog s; fuzzy := fuzzy s |}.
 (* importer.Import found and compiled the source: remember the code, make a module object *)
 Definition note_compiled (n : name) (s : st) : st :=
   {| cache := cache s; compiled := n :: compiled s; loaded := loaded s; arrays := arrays s;
      next_arr := next_arr s; next_mod := S (next_mod s); trace := trace s;
      starts := starts s; done_nr := done_nr s; done_r := done_r s; fail_nr := fail_nr s; fail_r := fail_r s;
-     results := results s; wlog := wlog s |}.
+     results := results s; wlog := wlog s; fuzzy := fuzzy s |}.
 (* vm.loadCode(module.Code()) for code not loaded yet: a fresh globals array *)
 Definition load_fresh (n : name) (s : st) : st :=
   {| cache := cache s; compiled := compiled s; loaded := (n, next_arr s) :: loaded s;
      arrays := (next_arr s, []) :: arrays s;
      next_arr := S (next_arr s); next_mod := next_mod s; trace := trace s;
      starts := starts s; done_nr := done_nr s; done_r := done_r s; fail_nr := fail_nr s; fail_r := fail_r s;
-     results := results s; wlog := wlog s |}.
+     results := results s; wlog := wlog s; fuzzy := fuzzy s |}.
 Definition begin_run (n : name) (re : bool) (d : nat) (s : st) : st :=
   {| cache := cache s; compiled := compiled s; loaded := loaded s; arrays := arrays s;
      next_arr := next_arr s; next_mod := next_mod s; trace := EvStart n (S (get n (starts s))) d :: trace s;
      starts := bump n (starts s); done_nr := done_nr s; done_r := done_r s; fail_nr := fail_nr s; fail_r := fail_r s;
-     results := results s; wlog := wlog s |}.
+     results := results s; wlog := wlog s; fuzzy := fuzzy s |}.
 (* module.UseGlobals(code.Globals); vm.modules[name] = module *)
 Definition finish_ok (n : name) (id arr : nat) (re : bool) (d : nat) (s : st) : st :=
   {| cache := update n (id, arr) (cache s); compiled := compiled s; loaded := loaded s; arrays := arrays s;
@@ -216,14 +225,14 @@ Definition finish_ok (n : name) (id arr : nat) (re : bool) (d : nat) (s : st) : 
      done_nr := if re then done_nr s else bump n (done_nr s);
      done_r := if re then bump n (done_r s) else done_r s;
      fail_nr := fail_nr s; fail_r := fail_r s;
-     results := (n, id) :: results s; wlog := wlog s |}.
+     results := (n, id) :: results s; wlog := wlog s; fuzzy := fuzzy s |}.
 Definition finish_fail (n : name) (re : bool) (s : st) : st :=
   {| cache := cache s; compiled := compiled s; loaded := loaded s; arrays := arrays s;
      next_arr := next_arr s; next_mod := next_mod s; trace := trace s;
      starts := starts s; done_nr := done_nr s; done_r := done_r s;
      fail_nr := if re then fail_nr s else bump n (fail_nr s);
      fail_r := if re then bump n (fail_r s) else fail_r s;
-     results := results s; wlog := wlog s |}.
+     results := results s; wlog := wlog s; fuzzy := fuzzy s |}.
 
 (* -------- the importer: first extension whose file exists -------- *)
 Fixpoint find_file (T : tree) (n : name) (ext : bstr) : option modsrc :=
@@ -252,6 +261,7 @@ Definition bind (c : ctx) (loc : option env) (x : name) (v : value) (s : st) : o
   end.
 
 Inductive rv := ROk (v : value) | RErr (e : err).
+Inductive res_push := POk (pushed : list value) | PErr (e : err).
 Fixpoint walk (v : value) (p : list name) (s : st) : rv :=
   match p with
   | [] => ROk v
@@ -273,8 +283,10 @@ Definition eval_path (c : ctx) (loc : option env) (p : list name) (s : st) : rv 
               | None => RErr EUnbound
               end
   end.
+Definition setter (x : name) : name := [115;101;116;95]%N ++ x.     (* "set_" ++ x *)
 Definition obs_of (v : value) : obsval :=
   match v with
+  | VFn => ONil
   | VInt z => OInt z
   | VBool b => OBool b
   | VNil => ONil
@@ -286,20 +298,26 @@ Definition value_same (a b : value) : bool :=
   | VMod x _ _, VMod y _ _ => Nat.eqb x y   (* Module.Equals: pointer identity *)
   | VBool x, VBool y => Bool.eqb x y
   | VNil, VNil => true
+  | VFn, VFn => true
   | _, _ => false
   end.
 
 (* -------- importModule, parameterised by the evaluator of a body -------- *)
-Inductive ires := IOk (id : nat) (arr : nat) | IErr (e : err) | IPanic | IFuel.
+(* [ran]: a module body was evaluated by this very call (so resumeFrame pushed what the body left on the
+   operand stack back under the result) *)
+Inductive ires := IOk (id : nat) (arr : nat) (ran : bool) | IErr (e : err) (ran : bool) | IPanic | IFuel.
+(* what a completed module body leaves on the operand stack: the value of its last statement.  The harness
+   ends every module with a call that returns 0. *)
+Definition body_result : value := VInt 0.
 Notation runner := (ctx -> option env -> list action -> st -> outcome * option env * st).
 
 Definition import_with (run : runner) (T : tree) (exts : list bstr) (c : ctx) (n : name) (s : st) : ires * st :=
   match lookup n (cache s) with
-  | Some (id, a) => (IOk id a, add_result n id s)
+  | Some (id, a) => (IOk id a false, add_result n id s)
   | None =>
       match find_source T exts n with
-      | None => (IErr ENotFound, log (EvReq n RNotFound) s)
-      | Some (ext, MBad) => (IErr ECompile, log (EvReq n (RBad ext)) s)
+      | None => (IErr ENotFound false, log (EvReq n RNotFound) s)
+      | Some (ext, MBad) => (IErr ECompile false, log (EvReq n (RBad ext)) s)
       | Some (ext, MBody body) =>
           let fresh := negb (mem n (compiled s)) in
           let id := next_mod s in
@@ -314,47 +332,47 @@ Definition import_with (run : runner) (T : tree) (exts : list bstr) (c : ctx) (n
             let c' := {| c_self := Some n; c_arr := arr; c_depth := S (c_depth c);
                          c_inprog := n :: c_inprog c; c_run := get n (starts s3) |} in
             match run c' None body s3 with
-            | (OK, _, s4) => (IOk id arr, finish_ok n id arr re d s4)
-            | (Err e, _, s4) => (IErr e, finish_fail n re s4)
+            | (OK, _, s4) => (IOk id arr true, finish_ok n id arr re d s4)
+            | (Err e, _, s4) => (IErr e true, finish_fail n re s4)
             | (Panic, _, s4) => (IPanic, finish_fail n re s4)
             | (Fuel, _, s4) => (IFuel, finish_fail n re s4)
             end
       end
   end.
 
-(* op.FromImport: one name *)
-Definition from_one (run : runner) (T : tree) (exts : list bstr) (c : ctx) (parents : list name) (nm : name) (s : st)
-  : (rv + outcome) * st :=
+(* op.FromImport: one name.  Returns what is pushed on the operand stack, in push order: the leftover of a
+   module body evaluated now (if any), then the value for the name. *)
+Definition from_one (run : runner) (T : tree) (exts : list bstr) (c : ctx) (parents : list name) (multi : bool) (nm : name) (s : st)
+  : (res_push + outcome) * st :=
   match import_with run T exts c (from_name parents nm) s with
-  | (IOk id a, s1) => (inl (ROk (VMod id (from_name parents nm) a)), s1)
+  | (IOk id a ran, s1) =>
+      (inl (POk ((if ran then [body_result] else []) ++ [VMod id (from_name parents nm) a])), s1)
   | (IPanic, s1) => (inr Panic, s1)
   | (IFuel, s1) => (inr Fuel, s1)
-  | (IErr _, s1) =>                                   (* any error: the name is taken to be a symbol of the parent *)
+  | (IErr _ ran1, s1) =>                              (* any error: the name is taken to be a symbol of the parent *)
+      let s1 := if ran1 && multi then set_fuzzy s1 else s1 in
       match import_with run T exts c (from_parent parents) s1 with
-      | (IOk id a, s2) =>
+      | (IOk id a ran, s2) =>
           match walk (VMod id (from_parent parents) a) [nm] s2 with
-          | ROk v => (inl (ROk v), s2)
-          | RErr _ => (inl (RErr ECannotImport), s2)
+          | ROk v => (inl (POk ((if ran then [body_result] else []) ++ [v])), s2)
+          | RErr _ => (inl (PErr ECannotImport), s2)
           end
-      | (IErr e, s2) => (inl (RErr e), s2)
+      | (IErr e _, s2) => (inl (PErr e), s2)
       | (IPanic, s2) => (inr Panic, s2)
       | (IFuel, s2) => (inr Fuel, s2)
       end
   end.
 
-(* names are popped from the stack, i.e. processed in reverse source order; returns values in processing order *)
-Fixpoint from_all (run : runner) (T : tree) (exts : list bstr) (c : ctx) (parents : list name) (names : list name) (s : st)
-  : (option (list value)) * outcome * st :=
+(* names are popped from the stack, i.e. processed in reverse source order; [stk] is the operand stack segment
+   of this statement, top first *)
+Fixpoint from_all (run : runner) (T : tree) (exts : list bstr) (c : ctx) (parents : list name) (multi : bool) (names : list name)
+  (stk : list value) (s : st) : (option (list value)) * outcome * st :=
   match names with
-  | [] => (Some [], OK, s)
+  | [] => (Some stk, OK, s)
   | nm :: r =>
-      match from_one run T exts c parents nm s with
-      | (inl (ROk v), s1) =>
-          match from_all run T exts c parents r s1 with
-          | (Some vs, o, s2) => (Some (v :: vs), o, s2)
-          | (None, o, s2) => (None, o, s2)
-          end
-      | (inl (RErr e), s1) => (None, Err e, s1)
+      match from_one run T exts c parents multi nm s with
+      | (inl (POk pushed), s1) => from_all run T exts c parents multi r (rev pushed ++ stk) s1
+      | (inl (PErr e), s1) => (None, Err e, s1)
       | (inr o, s1) => (None, o, s1)
       end
   end.
@@ -375,29 +393,31 @@ Definition step_with (run : runner) (T : tree) (exts : list bstr) (c : ctx) (loc
   match a with
   | AImport path alias =>
       match import_with run T exts c path s with
-      | (IOk id a, s1) =>
+      | (IOk id a _, s1) =>
           let x := match alias with Some al => al | None => last_comp path end in
           let '(loc', s2) := bind c loc x (VMod id path a) s1 in (OK, loc', s2)
-      | (IErr e, s1) => (Err e, loc, s1)
+      | (IErr e _, s1) => (Err e, loc, s1)
       | (IPanic, s1) => (Panic, loc, s1)
       | (IFuel, s1) => (Fuel, loc, s1)
       end
   | AFrom parents imports =>
       let names := map fst imports in
-      match from_all run T exts c parents (rev names) s with
-      | (Some vs, _, s1) =>
-          (* the stores pop in source order: source name i receives the value computed for it *)
-          let '(loc', s2) := bind_all c loc (map (from_alias imports) names) (rev vs) s1 in (OK, loc', s2)
+      match from_all run T exts c parents (Nat.ltb 1 (length names)) (rev names) [] s with
+      | (Some stk, _, s1) =>
+          (* the stores pop in source order: each takes whatever is on top of the stack *)
+          let '(loc', s2) := bind_all c loc (map (from_alias imports) names) stk s1 in (OK, loc', s2)
       | (None, o, s1) => (o, loc, s1)
       end
   | ASet x v =>
       (OK, loc, note_write (c_arr c) (c_self c) (set_array (c_arr c) (update x (VInt v) (arr_env (c_arr c) s)) s))
+  | ADef x =>
+      (OK, loc, set_array (c_arr c) (update (setter x) VFn (arr_env (c_arr c) s)) s)
   | ACallSet p x v =>
       match eval_path c loc p s with
       | ROk (VMod _ _ a) =>
-          match lookup x (arr_env a s) with
-          | Some _ => (OK, loc, set_array a (update x (VInt v) (arr_env a s)) s)
-          | None => (Err EAttr, loc, s)
+          match lookup (setter x) (arr_env a s) with
+          | Some VFn => (OK, loc, set_array a (update x (VInt v) (arr_env a s)) s)
+          | _ => (Err EAttr, loc, s)
           end
       | ROk _ => (Err ENotModule, loc, s)
       | RErr e => (Err e, loc, s)
